@@ -132,7 +132,8 @@ Lemma text_names more : forall cl c l st fuel,
   (wire_len (cl ++ (c ++ l) :: more) <= 254)%nat -> repr (mkopen cl c) st ->
   (length (display_label l ++ tail_text more) < fuel)%nat ->
   exists st', append_syms fuel None st (display_label l ++ tail_text more) = Ok (st', None) /\
-              b_into_name None st' = Ok (wire_abs (cl ++ (c ++ l) :: more)).
+              b_into_name None st' = Ok (wire_abs (cl ++ (c ++ l) :: more)) /\
+              b_finish st' = Ok (wire_rel (cl ++ (c ++ l) :: more)) /\ in_label st' = true.
 Proof.
   induction more as [|m ms IH]; intros cl c l st fuel Hcl [[V1 V2] V3] Hc Hl Hm Hlen Hr Hf;
     rewrite wire_len_app in Hlen; cbn [wire_len] in Hlen; rewrite app_length in V1, V2, Hlen.
@@ -144,7 +145,12 @@ Proof.
       - apply awf_mkopen; [exact Hcl|rewrite app_length; lia|apply wf_bytes_app; auto].
       - unfold alen, mkopen. cbn [closed opn]. destruct (c ++ l) eqn:El; [lia|]. rewrite <- El, app_length. lia. }
     destruct (into_name_spec None _ st' Hv R) as (H1 & _ & _). rewrite H1. cbn [fits].
-    f_equal. f_equal. unfold final_name, aend, mkopen. cbn [closed opn].
+    destruct (finish_spec _ st' Hv R) as (H2 & _). rewrite H2.
+    assert (Hfn : final_name (mkopen cl (c ++ l)) = cl ++ [c ++ l]).
+    { unfold final_name, aend, mkopen. cbn [closed opn].
+      destruct (c ++ l) eqn:El; [apply (f_equal (@length N)) in El; rewrite app_length in El; cbn [length] in El; lia|]. reflexivity. }
+    rewrite Hfn. split; [reflexivity|]. split; [reflexivity|].
+    unfold in_label. rewrite (repr_head _ _ R). unfold mkopen. cbn [opn].
     destruct (c ++ l) eqn:El; [apply (f_equal (@length N)) in El; rewrite app_length in El; cbn [length] in El; lia|]. reflexivity.
   - inversion Hm as [|? ? Hm1 Hm2]; subst. cbn [wire_len] in Hlen.
     set (rest := tail_text (m :: ms)) in *.
@@ -164,14 +170,14 @@ Proof.
     { unfold aend, mkopen. cbn [closed opn]. destruct (c ++ l) eqn:El; [apply (f_equal (@length N)) in El; rewrite app_length in El; cbn [length] in El; lia|]. reflexivity. }
     rewrite Ha in R2. destruct Hm1 as [[M1 M2] M3].
     rewrite display_labels_cons.
-    destruct (IH (cl ++ [c ++ l]) [] m st2 f') as (st3 & E3 & I3); auto.
+    destruct (IH (cl ++ [c ++ l]) [] m st2 f') as (st3 & E3 & I3 & F3 & L3); auto.
     + apply Forall_app. split; [exact Hcl|]. constructor; [|constructor].
       split; [rewrite app_length; lia|apply wf_bytes_app; auto].
     + cbn [app]. repeat split; auto.
     + constructor.
     + rewrite wire_len_app. cbn [wire_len app]. rewrite wire_len_app. cbn [wire_len]. rewrite app_length. lia.
     + rewrite display_labels_cons in F. cbn [length] in F. lia.
-    + exists st3. split; [exact E3|]. rewrite I3. rewrite <- app_assoc. reflexivity.
+    + exists st3. split; [exact E3|]. rewrite I3, F3. rewrite <- app_assoc. auto.
 Qed.
 
 Theorem display_parse_roundtrip n : valid_abs n ->
@@ -193,8 +199,26 @@ Proof.
   assert (P3 : wf_bytes [b0]) by (repeat constructor; exact Hb0).
   assert (P4 : (wire_len ([] ++ ([b0] ++ l') :: n') <= 254)%nat) by (cbn [app wire_len length]; lia).
   assert (P5 : (length (display_label l' ++ tail_text n') < S (length (display_label l' ++ tail_text n')))%nat) by lia.
-  destruct (text_names n' [] [b0] l' st1 _ P1 P2 P3 Hl' Hv' P4 R1 P5) as (st' & E & I).
+  destruct (text_names n' [] [b0] l' st1 _ P1 P2 P3 Hl' Hv' P4 R1 P5) as (st' & E & I & _ & _).
   rewrite E. unfold kept. cbn [app] in I. rewrite I. reflexivity.
+Qed.
+
+(* Display for RelativeName and back through RelativeName::from_chars *)
+Definition display_rel (n : name) : list N := display_labels n.
+
+Theorem display_parse_roundtrip_rel n : valid_rel n ->
+  rel_from_chars None (display_rel n) = Ok (wire_rel n).
+Proof.
+  intros [Hv Hl]. unfold rel_from_chars, display_rel. destruct n as [|l n']; [reflexivity|].
+  inversion Hv as [|? ? [[L1 L2] L3] Hv']; subst. rewrite display_labels_cons.
+  assert (P1 : Forall valid_label (@nil label)) by constructor.
+  assert (P2 : valid_label ([] ++ l)) by (cbn [app]; repeat split; auto).
+  assert (P3 : wf_bytes []) by constructor.
+  assert (P4 : (wire_len ([] ++ ([] ++ l) :: n') <= 254)%nat) by (cbn [app]; exact Hl).
+  assert (R0 : repr (mkopen [] []) b_init) by reflexivity.
+  destruct (text_names n' [] [] l b_init (S (length (display_label l ++ tail_text n'))) P1 P2 P3 L3 Hv' P4 R0 ltac:(lia))
+    as (st' & E & _ & F & I).
+  rewrite E, I. cbn [orb app] in *. exact F.
 Qed.
 
 Example display_parse_example :
@@ -300,3 +324,48 @@ Proof.
     + destruct (b_into_name None st2) as [w2|e3|p3|] eqn:Ef; try discriminate. cbn [bind].
       intros E; injection E as <- <-. destruct (Hinto _ _ Hi2 Ef) as (n & Hn & ->). eauto.
 Qed.
+
+(* ---------------------------------------------------------------- OwnedLabel::from_chars *)
+Lemma parse_escape_octet cs il b r : parse_escape cs il = Ok (b, r) -> b < 256 /\ (length r < length cs)%nat.
+Proof.
+  unfold parse_escape. destruct cs as [|c1 r1]; [discriminate|].
+  destruct (is_digit c1).
+  - destruct r1 as [|c2 r2]; [discriminate|]. destruct (negb (is_digit c2)); [discriminate|].
+    destruct r2 as [|c3 r3]; [discriminate|]. destruct (negb (is_digit c3)); [discriminate|].
+    unfold escape_dec_max.
+    destruct (N.ltb_spec 255 ((c1 - 48) * 100 + (c2 - 48) * 10 + (c3 - 48))); [discriminate|].
+    intros E; injection E as <- <-. cbn [length]. split; lia.
+  - destruct (c1 =? sym_bracket).
+    + destruct il; [|discriminate]. intros E; injection E as <- <-. unfold sym_bracket. cbn [length]. split; lia.
+    + intros E; injection E as <- <-. cbn [length]. split; [apply N.mod_upper_bound; discriminate|lia].
+Qed.
+
+Lemma owned_loop_valid fuel : forall cs acc l, wf_bytes acc -> (length acc <= 63)%nat ->
+  owned_loop fuel cs acc = Ok l -> wf_bytes l /\ (length l <= 63)%nat.
+Proof.
+  induction fuel as [|f IH]; intros cs acc l Hw Hl; [discriminate|]. cbn [owned_loop].
+  destruct cs as [|ch r]; [intros E; injection E as <-; auto|].
+  unfold olabel_full_ge, olabel_full_lim. cbn [exceeds].
+  destruct (Nat.leb_spec 63 (length acc)); [discriminate|].
+  destruct (in_ranges ch olabel_plain_ranges) eqn:R.
+  - apply IH; [|rewrite app_length; cbn [length]; lia].
+    apply wf_bytes_app. split; [exact Hw|]. repeat constructor.
+    unfold in_ranges, olabel_plain_ranges in R. cbn [existsb fst snd] in R.
+    rewrite !orb_true_iff, !andb_true_iff, !N.leb_le in R. lia.
+  - destruct (ch =? backslash); [|discriminate].
+    destruct (parse_escape r (0 <? length acc)%nat) as [[b r']|e|p|] eqn:E; try discriminate.
+    destruct (parse_escape_octet _ _ _ _ E) as [Hb _].
+    apply IH; [|rewrite app_length; cbn [length]; lia].
+    apply wf_bytes_app. split; [exact Hw|]. repeat constructor. exact Hb.
+Qed.
+
+(* every label OwnedLabel::from_chars returns has at most 63 octets *)
+Theorem owned_label_valid cs l : owned_label_from_chars cs = Ok l -> wf_bytes l /\ (length l <= 63)%nat.
+Proof. apply owned_loop_valid; [constructor|cbn; lia]. Qed.
+
+Example owned_label_examples :
+  owned_label_from_chars [119; 92; 46; 92; 48; 48; 55]%N = Ok [119; 46; 7]%N /\
+  owned_label_from_chars [119; 46]%N = Err T_NonAscii /\ owned_label_from_chars [92; 91]%N = Err T_BinaryLabel /\
+  owned_label_from_chars [97; 92; 91]%N = Ok [97; 91]%N /\ owned_label_from_chars (repeat 97%N 64) = Err E_LongLabel /\
+  owned_label_from_chars [92; 233]%N = Ok [233]%N /\ owned_label_from_chars [92; 128512]%N = Ok [0]%N.
+Proof. vm_compute. repeat split; reflexivity. Qed.
